@@ -134,7 +134,9 @@ Definition move_if_file (cwd rdir old new : str) (root : node) : result unit * n
    (a project that never initialised a job). *)
 Definition move_workspace (cwd rdir : str) (c : cfgrec) (root : node) : result unit * node :=
   let w := match cws c with Some w => w | None => s_workspace end in   (* configspec default *)
-  if str_eqb w s_workspace then (Ok tt, root)
+  (* since the repair of known finding C20/2: os.path.normpath(workspace_dir) is compared, so that
+     "./workspace" and "workspace/" are the default and not a custom directory colliding with itself *)
+  if str_eqb (normpath w) s_workspace then (Ok tt, root)
   else
     let cur := path_join rdir w in
     let new := path_join rdir s_workspace in
